@@ -971,8 +971,14 @@ class MetaGrid(object):
 
         # remove 1/10 of a pixel so we don't get a tiles we only touch
         delta = self.grid.resolutions[level] / 10.0
-        x0, y0, _ = self.grid.tile(bbox[0]+delta, bbox[1]+delta, level)
-        x1, y1, _ = self.grid.tile(bbox[2]-delta, bbox[3]-delta, level)
+        minx, miny, maxx, maxy = bbox[0]+delta, bbox[1]+delta, bbox[2]-delta, bbox[3]-delta
+        # a bbox thinner than 2/10 of a pixel: use its centre line instead of an inverted (empty) tile range
+        if minx > maxx:
+            minx = maxx = (bbox[0] + bbox[2]) / 2.0
+        if miny > maxy:
+            miny = maxy = (bbox[1] + bbox[3]) / 2.0
+        x0, y0, _ = self.grid.tile(minx, miny, level)
+        x1, y1, _ = self.grid.tile(maxx, maxy, level)
 
         meta_size = self._meta_size(level)
 
